@@ -14,11 +14,11 @@ CharsOf(s) == {Ch(s, i) : i \in 1..Len(s)}
 
 LowerAscii == "abcdefghijklmnopqrstuvwxyz"
 UpperAscii == "ABCDEFGHIJKLMNOPQRSTUVWXYZ"
-LowerAcc   == "àâäáãçéèêëíîïñóôöõúùûüœæ"
-UpperAcc   == "ÀÂÄÁÃÇÉÈÊËÍÎÏÑÓÔÖÕÚÙÛÜŒÆ"
+LowerAcc   == "àâäáãçéèêëíîïñóôöõúùûüœæß"
+UpperAcc   == "ÀÂÄÁÃÇÉÈÊËÍÎÏÑÓÔÖÕÚÙÛÜŒÆẞ"
 Lowers == LowerAscii \o LowerAcc
 Uppers == UpperAscii \o UpperAcc
-OtherAlpha == "ßºªᵉʳᵒˢᵃ日本"            \* alphabetic, no (reversible) case pair in the tables
+OtherAlpha == "ºªᵉʳᵒˢᵃ日本"            \* alphabetic, no (reversible) case pair in the tables (ß pairs with the capital ẞ U+1E9E)
 DigitChars == "0123456789"
 OtherNumeric == "٣½"                      \* numeric but not ASCII digits (Nd / No)
 
